@@ -1635,13 +1635,91 @@ func (r *e2Run) stress(ctx context.Context) {
 			r.setLastEnded(os)
 			r.count("stress_glines", 1)
 		}
+		metrics := func() {
+			// what a metrics scrape evaluates: the accessors behind main()'s irc_sessions, irc_session_limit,
+			// irc_channels and irc_channel_limit gauges, on the state of the node the group talks to (the gauges
+			// themselves read package main's globals, which this process swaps per node)
+			for k := 0; k < 4; k++ {
+				nd := r.nodes[node]
+				if !nd.aliveA.Load() {
+					return
+				}
+				nd.mu.Lock()
+				is := nd.irc
+				nd.mu.Unlock()
+				if is == nil {
+					return
+				}
+				_ = is.NumChannels()
+				_ = is.NumSessions()
+				_ = is.ChannelLimit()
+				_ = is.SessionLimit()
+				_ = is.NumChannels()
+				r.count("stress_metric_scrapes", 1)
+				time.Sleep(time.Duration(1+r.choice("stress/scrapegap", 20)) * time.Millisecond)
+			}
+		}
+		servicesLink := func() {
+			// a services link forces the stressor into a fresh channel (SVSJOIN creates it) and out of it again
+			// while metrics and status pages are read; talks to the leader directly like operGline
+			l := r.leader()
+			if l == nil {
+				return
+			}
+			node := l.idx
+			rctx, cancel := context.WithTimeout(ctx, 30*time.Second)
+			defer cancel()
+			code, _, hdr, err := r.request(rctx, node, "GET", "/config", basic(), "")
+			if err != nil || code != 200 {
+				return
+			}
+			h := basic()
+			h["X-RobustIRC-Config-Revision"] = hdr.Get("X-RobustIRC-Config-Revision")
+			if code, _, _, err := r.request(rctx, node, "POST", "/config", h, fmt.Sprintf("SessionExpiration = \"30m0s\"\nPostMessageCooloff = \"%dms\"\n[IRC]\n[[IRC.Operators]]\nName = \"root\"\nPassword = \"stpw\"\n[[IRC.Services]]\nPassword = \"svpw\"\n", 50+g%300)); err != nil || code != 200 {
+				return
+			}
+			code, body, _, err := r.request(rctx, node, "POST", "/robustirc/v1/session", nil, "")
+			var rep struct{ Sessionid, Sessionauth string }
+			if err != nil || code != 200 || json.Unmarshal(body, &rep) != nil || rep.Sessionid == "" {
+				return
+			}
+			r.noteSecret(rep.Sessionid, rep.Sessionauth)
+			sh := map[string]string{"X-Session-Auth": rep.Sessionauth}
+			say := func(i int, line string) {
+				b, _ := json.Marshal(map[string]interface{}{"Data": line, "ClientMessageId": uint64(9000000 + g*10 + i)})
+				r.request(rctx, node, "POST", "/robustirc/v1/"+rep.Sessionid+"/message", sh, string(b))
+			}
+			say(0, "PASS :services=svpw")
+			say(1, "SERVER services.stress 1 :stress")
+			var inner sync.WaitGroup
+			for k := 0; k < 2; k++ {
+				inner.Add(1)
+				go func() { defer inner.Done(); metrics() }()
+			}
+			inner.Add(1)
+			go func() { defer inner.Done(); get("/status/state")() }()
+			say(2, fmt.Sprintf(":services.stress SVSJOIN stressor #svs%d", g))
+			say(3, fmt.Sprintf(":services.stress SVSPART stressor #svs%d", g))
+			inner.Wait()
+			r.request(rctx, node, "DELETE", "/robustirc/v1/"+rep.Sessionid, sh, `{"Quitmessage":"done"}`)
+			r.setLastEnded(rep.Sessionid)
+			r.count("stress_services_links", 1)
+		}
 		n := 2 + r.choice("stress/size", 4)
 		for k := 0; k < n; k++ {
-			opk := r.choice("stress/op", 20)
+			nops := 20
+			if r.prop == "C20" {
+				nops = 24
+			}
+			opk := r.choice("stress/op", nops)
 			if d := os.Getenv("VERIF_DBG_NOOP"); d != "" && strings.Contains(d, fmt.Sprintf(",%d,", opk)) {
 				opk = 0
 			}
 			switch opk {
+			case 20, 21:
+				launch(metrics)
+			case 22, 23:
+				launch(servicesLink)
 			case 17:
 				launch(stale)
 			case 18, 19:
